@@ -138,6 +138,8 @@ def kabsch_rmsd(A, B):
     R = U @ D @ Vt
     Ga, Gb = (A0 * A0).sum(), (B0 * B0).sum()
     msd = (Ga + Gb - 2.0 * (S[0] + S[1] + S[2] * (d if d != 0 else 1.0))) / len(A)
+    S = S.copy()
+    S[2] *= (d if d != 0 else 1.0)       # signed: negative when the best orthogonal fit is improper (mirror-like pair)
     return math.sqrt(max(msd, 0.0)), R, (Ga + Gb) / len(A), S
 
 
